@@ -362,6 +362,9 @@ def check_missing(spec):
              ("score", lambda: fw.make(e, hp).fit(X, A).score(X))]
     if e in fw.SPARSE_EST:
         calls.append(("path", lambda: fw.make(e, hp).path(X, None, **PATH_KW)))
+    import gemclus.gemini as G
+    gobj = (G.MMDGEMINI(kernel="precomputed") if spec["kind"] == "kernel" else G.WassersteinGEMINI(metric="precomputed"))
+    calls.append(("compute_affinity", lambda: gobj.compute_affinity(X)))
     for nm, fn in calls:
         try:
             r = fn()
@@ -473,8 +476,45 @@ def check_kauri(spec):
     return fails, info
 
 
+def check_reconfigured(spec):
+    """the GEMINI / affinity used is the one the parameters describe AT THE TIME OF THE CALL: an estimator that has already
+    been used with one configuration and is then reconfigured with set_params behaves like a fresh estimator built with
+    the new configuration (fit state, score, get_gemini)."""
+    fails, info = [], {}
+    X = np.array(spec["X"], float)
+    e = spec["estimator"]
+    c = fw.live_hyper(_common(spec))
+    E = fl.estimators()
+    first, second = fw.live_hyper(spec["first"]), fw.live_hyper(spec["second"])
+    m = E[e](**first, **c)
+    if spec["use"] == "fit":
+        m.fit(X)
+        m.score(X)
+    elif spec["use"] == "get_gemini":
+        m.get_gemini()
+    else:
+        m.fit_predict(X)
+    m.set_params(**second)
+    fresh = E[e](**{**first, **second}, **c)
+    m.fit(X)
+    fresh.fit(X)
+    _cmp(fails, "reconfigured:fit", f"{e}: fit after {spec['use']} with {spec['first']} and set_params({spec['second']}) vs a fresh estimator",
+         fw.fitted_state(m), fw.fitted_state(fresh))
+    s1, s2 = m.score(X), fresh.score(X)
+    if not fw.same_bits(np.asarray(s1), np.asarray(s2)):
+        fails.append({"key": "reconfigured:score", "what": f"{e}: score after reconfiguration {s1!r} differs from a fresh estimator's {s2!r}",
+                      "expected": s2, "actual": s1})
+    g1, g2 = m.get_gemini(), fresh.get_gemini()
+    d1 = (fw.eval_owner(g1), bool(g1.ovo), getattr(g1, "kernel", None), getattr(g1, "metric", None))
+    d2 = (fw.eval_owner(g2), bool(g2.ovo), getattr(g2, "kernel", None), getattr(g2, "metric", None))
+    if d1 != d2:
+        fails.append({"key": "reconfigured:get_gemini", "what": f"{e}: get_gemini() after reconfiguration is {d1}, a fresh estimator's is {d2}",
+                      "expected": str(d2), "actual": str(d1)})
+    return fails, info
+
+
 CHECKS = {"named_vs_precomputed": check_named_vs_precomputed, "callable": check_callable, "missing": check_missing,
-          "documented": check_documented, "kauri": check_kauri}
+          "documented": check_documented, "kauri": check_kauri, "reconfigured": check_reconfigured}
 
 
 def safe_check(spec):
@@ -573,6 +613,32 @@ def gen_specs(ctx, rs):
         X, _ = dat(d=2 if e == "Douglas" else None)
         specs.append({"check": "missing", "estimator": e, "kind": kind, "name": "linear" if kind == "kernel" else "euclidean",
                       "ovo": bool(rs.randint(2)), "via": "param" if e not in fw.GENERIC_EST else "instance",
+                      "common": common(e, rs), "X": X.tolist()})
+    # (ii') missing matrix with SQUARE non-negative data (which scikit-learn itself would take for a precomputed matrix)
+    for e in fw.MMD_EST + fw.WASS_EST + [g for g in fw.GENERIC_EST if g != "Douglas"]:
+        kind = "metric" if e in fw.WASS_EST or (e in fw.GENERIC_EST and rs.rand() < 0.5) else "kernel"
+        n = int(rs.randint(6, 9))
+        Xs = np.abs(fw.data(rs, n, n, True))
+        specs.append({"check": "missing", "estimator": e, "kind": kind, "name": "linear" if kind == "kernel" else "euclidean",
+                      "ovo": bool(rs.randint(2)), "via": "param" if e not in fw.GENERIC_EST else "instance",
+                      "common": common(e, rs), "X": Xs.tolist(), "square": True})
+    # (v) reconfiguration through set_params after a first use
+    names = fl.GEMINI_NAMES
+    for e in fw.GENERIC_EST:
+        for use in (("fit", "get_gemini", "fit_predict") if thorough else (["fit", "get_gemini", "fit_predict"][rs.randint(3)],)):
+            a, b = [names[i] for i in rs.permutation(len(names))[:2]]
+            first = {"gemini": [None, a][rs.randint(2)]}
+            X, _ = dat(n=int(rs.randint(6, 9)), d=2 if e == "Douglas" else None)
+            specs.append({"check": "reconfigured", "estimator": e, "use": use, "first": first, "second": {"gemini": b},
+                          "common": common(e, rs), "X": X.tolist()})
+    for e in fw.MMD_EST + fw.WASS_EST:
+        key = "kernel" if e in fw.MMD_EST else "metric"
+        lst = fw.KERNELS if e in fw.MMD_EST else fw.METRICS
+        k1, k2 = [lst[i][0] for i in rs.permutation(len(lst))[:2]]
+        nonneg = any(k in fw.NONNEG_KERNELS for k in (k1, k2))
+        X, _ = dat(nonneg)
+        second = {key: k2} if rs.rand() < 0.5 else {"ovo": True}
+        specs.append({"check": "reconfigured", "estimator": e, "use": "fit", "first": {key: k1, "ovo": False}, "second": second,
                       "common": common(e, rs), "X": X.tolist()})
     # (iv) documented objective
     for e in GENERIC_OF:
